@@ -389,6 +389,8 @@ func registerModels(e *Engine) {
 	registerVerifAPI(e)
 	registerTimeModels(e)
 	registerRegexpModels(e)
+	registerCookieModel(e)
+	registerCompressModels(e)
 	registerStringModels(e)
 	registerTimerModels(e)
 	registerJSONModels(e)
